@@ -3,6 +3,9 @@ package c01
 import (
 	"bytes"
 	"context"
+	"crypto/ecdsa"
+	"crypto/elliptic"
+	"crypto/rand"
 	"fmt"
 	"io"
 	"os"
@@ -13,36 +16,42 @@ import (
 	"github.com/codenotary/immudb/pkg/client"
 	"github.com/codenotary/immudb/pkg/client/clienttest"
 	"github.com/codenotary/immudb/pkg/database"
+	"github.com/codenotary/immudb/pkg/signer"
 	"google.golang.org/grpc"
 	"google.golang.org/protobuf/proto"
 	"verif/harness/vk"
 )
 
-// The client-side flow (pkg/client verifiedGet / VerifiedSet / VerifiedTxByID) driven OFFLINE: the
-// real client code with its ServiceClient replaced by a mock that answers from a real
-// pkg/database.DB — honestly, or after tampering with the response. Oracle = the database itself:
-// whatever a Verified* call returns without error must be what the database holds, and the trusted
-// state the client ends up with must be a state of the database. (VerifiedTxByID returned tampered
-// transactions until /repo commit 89a7093; the tamperings stay in the stream.)
+// The client-side flow driven OFFLINE: the real pkg/client code (VerifiedGet / VerifiedGetAt /
+// VerifiedTxByID / VerifiedSet / VerifiedSetReference / VerifiedZAdd) with its ServiceClient
+// replaced by a mock that answers from real pkg/database.DB instances and signs the states like
+// pkg/server does:
+//   A       the genuine database; the client's trusted state is always a state of A;
+//   forks   three other real databases with a self-consistent but DIFFERENT history: same length
+//           (same keys and operations, different values from tx 1 on), longer, shorter.
+// For every operation, with the proven transaction older than / equal to / newer than the trusted
+// state:
+//   honest   answered by A: must succeed, return what A holds, leave a state of A;
+//   forked   answered by a fork: MUST FAIL and leave the locally stored state untouched;
+//   altered  answered by A with one field of the response altered: must fail and leave the state
+//            untouched (fields every verification depends on: entry value / tx id / metadata, every
+//            header field of source and target, the returned Tx, the state signature), or — for
+//            proof terms that a particular verification may not use — at least return genuine data
+//            and leave a state of A.
+// The trusted (id, hash) must come from the client's own state, never from the response.
 
-type memState struct{ st map[string]*schema.ImmutableState }
+type memState struct{ st *schema.ImmutableState }
 
 func (m *memState) GetState(ctx context.Context, db string) (*schema.ImmutableState, error) {
-	if s, ok := m.st[db]; ok {
-		return s, nil
+	if m.st != nil {
+		return m.st, nil
 	}
 	return &schema.ImmutableState{Db: db}, nil // no state yet: TxId 0
 }
-func (m *memState) SetState(db string, s *schema.ImmutableState) error { m.st[db] = s; return nil }
+func (m *memState) SetState(db string, s *schema.ImmutableState) error { m.st = s; return nil }
 func (m *memState) CacheLock() error                                  { return nil }
 func (m *memState) CacheUnlock() error                                { return nil }
 func (m *memState) SetServerIdentity(identity string)                 {}
-
-type tamper struct {
-	name string
-	get  func(r *vk.Run, e *schema.VerifiableEntry)
-	tx   func(r *vk.Run, t *schema.VerifiableTx)
-}
 
 func flipBytes(r *vk.Run, b []byte) []byte {
 	c := append([]byte{}, b...)
@@ -53,12 +62,285 @@ func flipBytes(r *vk.Run, b []byte) []byte {
 	return c
 }
 
-func clientFlow(r *vk.Run) (err error) {
-	dir, err := os.MkdirTemp("", "vh-c01-db")
+// an alteration of a response; strict: every verification depends on the altered field
+type alter struct {
+	name   string
+	strict bool
+	vtx    func(r *vk.Run, t *schema.VerifiableTx) bool // false: not applicable to this response
+	vent   func(r *vk.Run, e *schema.VerifiableEntry) bool
+}
+
+func hdrAlters(side string, get func(t *schema.VerifiableTx) *schema.TxHeader) []alter {
+	mk := func(n string, f func(r *vk.Run, h *schema.TxHeader)) alter {
+		return alter{name: "DualProof." + side + "." + n, strict: true, vtx: func(r *vk.Run, t *schema.VerifiableTx) bool {
+			if t.DualProof == nil || get(t) == nil {
+				return false
+			}
+			f(r, get(t))
+			return true
+		}}
+	}
+	return []alter{
+		mk("Id+1", func(r *vk.Run, h *schema.TxHeader) { h.Id++ }),
+		mk("Id-1", func(r *vk.Run, h *schema.TxHeader) { h.Id-- }),
+		mk("PrevAlh", func(r *vk.Run, h *schema.TxHeader) { h.PrevAlh = flipBytes(r, h.PrevAlh) }),
+		mk("Ts", func(r *vk.Run, h *schema.TxHeader) { h.Ts++ }),
+		mk("Version", func(r *vk.Run, h *schema.TxHeader) { h.Version ^= 1 }),
+		mk("Nentries", func(r *vk.Run, h *schema.TxHeader) { h.Nentries++ }),
+		mk("EH", func(r *vk.Run, h *schema.TxHeader) { h.EH = flipBytes(r, h.EH) }),
+		mk("BlTxId+1", func(r *vk.Run, h *schema.TxHeader) { h.BlTxId++ }),
+		mk("BlTxId-1", func(r *vk.Run, h *schema.TxHeader) { h.BlTxId-- }),
+		mk("BlRoot", func(r *vk.Run, h *schema.TxHeader) { h.BlRoot = flipBytes(r, h.BlRoot) }),
+		mk("Metadata", func(r *vk.Run, h *schema.TxHeader) { h.Metadata = &schema.TxMetadata{Extra: []byte{7}} }),
+	}
+}
+
+func flipTerm(r *vk.Run, ts [][]byte) bool {
+	if len(ts) == 0 {
+		return false
+	}
+	k := r.Rng.Intn(len(ts))
+	ts[k] = flipBytes(r, ts[k])
+	return true
+}
+
+func vtxAlters() []alter {
+	var as []alter
+	as = append(as, hdrAlters("SourceTxHeader", func(t *schema.VerifiableTx) *schema.TxHeader { return t.DualProof.SourceTxHeader })...)
+	as = append(as, hdrAlters("TargetTxHeader", func(t *schema.VerifiableTx) *schema.TxHeader { return t.DualProof.TargetTxHeader })...)
+	as = append(as,
+		alter{name: "DualProof.swapheaders", strict: true, vtx: func(r *vk.Run, t *schema.VerifiableTx) bool {
+			if t.DualProof.SourceTxHeader.Id == t.DualProof.TargetTxHeader.Id {
+				return false
+			}
+			t.DualProof.SourceTxHeader, t.DualProof.TargetTxHeader = t.DualProof.TargetTxHeader, t.DualProof.SourceTxHeader
+			return true
+		}},
+		alter{name: "Signature.absent", strict: true, vtx: func(r *vk.Run, t *schema.VerifiableTx) bool { t.Signature = nil; return true }},
+		alter{name: "Signature.flipped", strict: true, vtx: func(r *vk.Run, t *schema.VerifiableTx) bool {
+			if t.Signature == nil {
+				return false
+			}
+			t.Signature.Signature = flipBytes(r, t.Signature.Signature)
+			return true
+		}},
+		// proof terms: a particular verification may not use them
+		alter{name: "DualProof.TargetBlTxAlh", vtx: func(r *vk.Run, t *schema.VerifiableTx) bool {
+			t.DualProof.TargetBlTxAlh = flipBytes(r, t.DualProof.TargetBlTxAlh)
+			return true
+		}},
+		alter{name: "DualProof.InclusionProof", vtx: func(r *vk.Run, t *schema.VerifiableTx) bool { return flipTerm(r, t.DualProof.InclusionProof) }},
+		alter{name: "DualProof.ConsistencyProof", vtx: func(r *vk.Run, t *schema.VerifiableTx) bool { return flipTerm(r, t.DualProof.ConsistencyProof) }},
+		alter{name: "DualProof.LastInclusionProof", vtx: func(r *vk.Run, t *schema.VerifiableTx) bool { return flipTerm(r, t.DualProof.LastInclusionProof) }},
+		alter{name: "DualProof.LinearProof.Terms", vtx: func(r *vk.Run, t *schema.VerifiableTx) bool {
+			return t.DualProof.LinearProof != nil && flipTerm(r, t.DualProof.LinearProof.Terms)
+		}},
+		alter{name: "DualProof.LinearProof.TargetTxId", vtx: func(r *vk.Run, t *schema.VerifiableTx) bool {
+			if t.DualProof.LinearProof == nil {
+				return false
+			}
+			t.DualProof.LinearProof.TargetTxId++
+			return true
+		}},
+		// the returned transaction
+		alter{name: "Tx.Header.EH", strict: true, vtx: func(r *vk.Run, t *schema.VerifiableTx) bool { t.Tx.Header.EH = flipBytes(r, t.Tx.Header.EH); return true }},
+		alter{name: "Tx.Header.Ts", strict: true, vtx: func(r *vk.Run, t *schema.VerifiableTx) bool { t.Tx.Header.Ts++; return true }},
+		alter{name: "Tx.Header.Id", strict: true, vtx: func(r *vk.Run, t *schema.VerifiableTx) bool { t.Tx.Header.Id++; return true }},
+		alter{name: "Tx.Entries[0].Key", strict: true, vtx: func(r *vk.Run, t *schema.VerifiableTx) bool {
+			if len(t.Tx.Entries) == 0 {
+				return false
+			}
+			t.Tx.Entries[0].Key = flipBytes(r, t.Tx.Entries[0].Key)
+			return true
+		}},
+		alter{name: "Tx.Entries[0].HValue", strict: true, vtx: func(r *vk.Run, t *schema.VerifiableTx) bool {
+			if len(t.Tx.Entries) == 0 {
+				return false
+			}
+			t.Tx.Entries[0].HValue = flipBytes(r, t.Tx.Entries[0].HValue)
+			return true
+		}},
+		alter{name: "Tx.Entries[0].Metadata", strict: true, vtx: func(r *vk.Run, t *schema.VerifiableTx) bool {
+			if len(t.Tx.Entries) == 0 {
+				return false
+			}
+			t.Tx.Entries[0].Metadata = &schema.KVMetadata{NonIndexable: true}
+			return true
+		}},
+	)
+	return as
+}
+
+// alterations of a VerifiableGet response: those of the embedded VerifiableTx (its Tx is not
+// what VerifiedGet returns, so alterations of it are not strict there) plus the entry itself
+func ventAlters() []alter {
+	var as []alter
+	for _, a := range vtxAlters() {
+		a := a
+		strict := a.strict && len(a.name) >= 3 && a.name[:3] != "Tx."
+		as = append(as, alter{name: a.name, strict: strict, vent: func(r *vk.Run, e *schema.VerifiableEntry) bool { return a.vtx(r, e.VerifiableTx) }})
+	}
+	target := func(e *schema.VerifiableEntry) *schema.Entry { // the entry whose content the proof covers
+		return e.Entry
+	}
+	as = append(as,
+		alter{name: "Entry.Value", strict: true, vent: func(r *vk.Run, e *schema.VerifiableEntry) bool {
+			target(e).Value = flipBytes(r, target(e).Value)
+			return true
+		}},
+		alter{name: "Entry.Tx+1", strict: true, vent: func(r *vk.Run, e *schema.VerifiableEntry) bool {
+			if e.Entry.ReferencedBy != nil {
+				e.Entry.ReferencedBy.Tx++
+			} else {
+				e.Entry.Tx++
+			}
+			return true
+		}},
+		alter{name: "Entry.Tx-1", strict: true, vent: func(r *vk.Run, e *schema.VerifiableEntry) bool {
+			if e.Entry.ReferencedBy != nil {
+				e.Entry.ReferencedBy.Tx--
+			} else {
+				e.Entry.Tx--
+			}
+			return true
+		}},
+		alter{name: "Entry.Metadata.deleted", strict: true, vent: func(r *vk.Run, e *schema.VerifiableEntry) bool {
+			if e.Entry.ReferencedBy != nil {
+				e.Entry.ReferencedBy.Metadata = &schema.KVMetadata{Deleted: true}
+			} else {
+				e.Entry.Metadata = &schema.KVMetadata{Deleted: true}
+			}
+			return true
+		}},
+		alter{name: "Entry.Key", strict: true, vent: func(r *vk.Run, e *schema.VerifiableEntry) bool {
+			e.Entry.Key = flipBytes(r, e.Entry.Key)
+			return true
+		}},
+		alter{name: "InclusionProof.Leaf+1", vent: func(r *vk.Run, e *schema.VerifiableEntry) bool { e.InclusionProof.Leaf++; return true }},
+		alter{name: "InclusionProof.Width+1", vent: func(r *vk.Run, e *schema.VerifiableEntry) bool { e.InclusionProof.Width++; return true }},
+		alter{name: "InclusionProof.Terms", vent: func(r *vk.Run, e *schema.VerifiableEntry) bool { return flipTerm(r, e.InclusionProof.Terms) }},
+	)
+	return as
+}
+
+// classOf names the four places where the unchanged client returns a response field that no check
+// covers (known findings); any other acceptance carries class=none
+func classOf(op, alteration string) string {
+	switch {
+	case (op == "VerifiedGet" || op == "VerifiedGetAt") && alteration == "Entry.Key":
+		return "class=entry-key-not-compared-with-request"
+	case op == "VerifiedGetAt" && (alteration == "Entry.Tx+1" || alteration == "Entry.Tx-1"):
+		return "class=entry-tx-not-compared-with-AtTx"
+	case op == "VerifiedGet(reference)" && alteration == "Entry.Value":
+		return "class=referenced-value-not-proven"
+	case (op == "VerifiedSet" || op == "VerifiedSetReference" || op == "VerifiedZAdd") && alteration == "Tx.Header.EH":
+		return "class=returned-tx-header-EH-not-compared"
+	}
+	return "class=none"
+}
+
+type cfDB struct {
+	name string
+	db   database.DB
+	dir  string
+}
+
+type cfEnv struct {
+	r      *vk.Run
+	ctx    context.Context
+	A      *cfDB
+	forks  []*cfDB
+	alhs   [][]byte // alhs[k-1] = Alh of A's transaction k
+	cl     client.ImmuClient
+	ms     *memState
+	route  *cfDB // who answers the next request
+	alt    *alter
+	altHit bool // the alteration was applicable and applied
+	sign   func(db string, h *schema.TxHeader) *schema.Signature
+	keys   [][]byte
+}
+
+func (e *cfEnv) last() uint64 { return uint64(len(e.alhs)) }
+
+func (e *cfEnv) refreshA() error {
+	st, err := e.A.db.CurrentState()
 	if err != nil {
 		return err
 	}
-	defer os.RemoveAll(dir)
+	for id := e.last() + 1; id <= st.TxId; id++ {
+		t, err := e.A.db.TxByID(e.ctx, &schema.TxRequest{Tx: id})
+		if err != nil {
+			return err
+		}
+		a := schema.TxHeaderFromProto(t.Header).Alh()
+		e.alhs = append(e.alhs, a[:])
+	}
+	return nil
+}
+
+func (e *cfEnv) setState(s uint64) *schema.ImmutableState {
+	st := &schema.ImmutableState{Db: "defaultdb", TxId: s, TxHash: append([]byte{}, e.alhs[s-1]...)}
+	e.ms.st = st
+	return st
+}
+
+func (e *cfEnv) isStateOfA(st *schema.ImmutableState) bool {
+	return st != nil && st.TxId >= 1 && st.TxId <= e.last() && bytes.Equal(st.TxHash, e.alhs[st.TxId-1])
+}
+
+func sameState(a, b *schema.ImmutableState) bool {
+	return a != nil && b != nil && a.TxId == b.TxId && bytes.Equal(a.TxHash, b.TxHash)
+}
+
+// the skeleton of operations every database executes (values differ by salt)
+func buildHistory(ctx context.Context, d database.DB, salt byte, n int, keys [][]byte) error {
+	for i := 0; i < n; i++ {
+		k := keys[i%len(keys)]
+		v := []byte{salt, byte(i), byte(i * 7), salt ^ byte(i)}
+		var err error
+		switch {
+		case i == 3:
+			_, err = d.SetReference(ctx, &schema.ReferenceRequest{Key: []byte("ref"), ReferencedKey: keys[0]})
+		case i == 5:
+			_, err = d.ZAdd(ctx, &schema.ZAddRequest{Set: []byte("zs"), Score: float64(salt), Key: keys[1]})
+		case i%4 == 2:
+			_, err = d.Set(ctx, &schema.SetRequest{KVs: []*schema.KeyValue{{Key: k, Value: v}, {Key: append([]byte("x"), k...), Value: v}}})
+		default:
+			_, err = d.Set(ctx, &schema.SetRequest{KVs: []*schema.KeyValue{{Key: k, Value: v}}})
+		}
+		if err != nil {
+			return err
+		}
+	}
+	return nil
+}
+
+func openCfDB(name string, quiet logger.Logger) (*cfDB, error) {
+	dir, err := os.MkdirTemp("", "vh-c01-db")
+	if err != nil {
+		return nil, err
+	}
+	so := store.DefaultOptions().WithSynced(false).WithMaxConcurrency(4).WithLogger(quiet)
+	d, err := database.NewDB("defaultdb", nil, database.DefaultOptions().WithDBRootPath(dir).WithStoreOptions(so), quiet)
+	if err != nil {
+		os.RemoveAll(dir)
+		return nil, err
+	}
+	return &cfDB{name: name, db: d, dir: dir}, nil
+}
+
+func (c *cfDB) close() { c.db.Close(); os.RemoveAll(c.dir) }
+
+// one adversarial or honest call: op runs the client operation and says what it returned
+type cfOp struct {
+	name   string
+	proven uint64 // the transaction being proven (0: a new transaction, newer than every state)
+	run    func() (ret any, err error)
+	// genuine: is the returned value what A holds?
+	genuine func(ret any) bool
+}
+
+func clientFlow(r *vk.Run) (err error) {
 	defer func() {
 		if rec := recover(); rec != nil {
 			r.Finding(fmt.Sprintf("client flow: panic: %v", rec))
@@ -66,107 +348,367 @@ func clientFlow(r *vk.Run) (err error) {
 		}
 	}()
 	quiet := logger.NewSimpleLoggerWithLevel("vh", io.Discard, logger.LogError)
-	so := store.DefaultOptions().WithSynced(false).WithMaxConcurrency(4).WithLogger(quiet)
-	db, err := database.NewDB("defaultdb", nil, database.DefaultOptions().WithDBRootPath(dir).WithStoreOptions(so), quiet)
+	ctx := context.Background()
+	e := &cfEnv{r: r, ctx: ctx, ms: &memState{}}
+	e.keys = [][]byte{[]byte("ka"), []byte("kb"), []byte("kc"), []byte("kd")}
+	n := 12 + r.Rng.Intn(8)
+	for i, spec := range []struct {
+		name string
+		salt byte
+		n    int
+	}{{"A", 1, n}, {"fork-same-length", 2, n}, {"fork-longer", 3, n + 3}, {"fork-shorter", 4, n - 4}} {
+		d, err := openCfDB(spec.name, quiet)
+		if err != nil {
+			return err
+		}
+		defer d.close()
+		if err := buildHistory(ctx, d.db, spec.salt, spec.n, e.keys); err != nil {
+			return err
+		}
+		if i == 0 {
+			e.A = d
+		} else {
+			e.forks = append(e.forks, d)
+		}
+	}
+	if err := e.refreshA(); err != nil {
+		return err
+	}
+	pk, err := ecdsa.GenerateKey(elliptic.P256(), rand.Reader)
 	if err != nil {
 		return err
 	}
-	defer db.Close()
-	ctx := context.Background()
-
-	var tam *tamper // tampering applied to the NEXT response only
+	sg := signer.NewSignerFromPKey(rand.Reader, pk)
+	e.sign = func(db string, h *schema.TxHeader) *schema.Signature {
+		a := schema.TxHeaderFromProto(h).Alh()
+		st := &schema.ImmutableState{Db: db, TxId: h.Id, TxHash: a[:]}
+		sig, pub, err := sg.Sign(st.ToBytes())
+		if err != nil {
+			return nil
+		}
+		return &schema.Signature{Signature: sig, PublicKey: pub}
+	}
+	finishVtx := func(t *schema.VerifiableTx, err error, alterable bool) (*schema.VerifiableTx, error) {
+		if err != nil {
+			return nil, err
+		}
+		t = proto.Clone(t).(*schema.VerifiableTx)
+		t.Signature = e.sign("defaultdb", t.DualProof.TargetTxHeader) // as pkg/server does
+		if alterable && e.alt != nil && e.alt.vtx != nil {
+			e.altHit = e.alt.vtx(r, t)
+		}
+		return t, nil
+	}
 	mock := &clienttest.ImmuServiceClientMock{}
 	mock.VerifiableGetF = func(ctx context.Context, in *schema.VerifiableGetRequest, opts ...grpc.CallOption) (*schema.VerifiableEntry, error) {
-		e, err := db.VerifiableGet(ctx, in)
-		if err == nil && tam != nil && tam.get != nil {
-			e = proto.Clone(e).(*schema.VerifiableEntry)
-			tam.get(r, e)
+		ve, err := e.route.db.VerifiableGet(ctx, in)
+		if err != nil {
+			return nil, err
 		}
-		return e, err
+		ve = proto.Clone(ve).(*schema.VerifiableEntry)
+		ve.VerifiableTx.Signature = e.sign("defaultdb", ve.VerifiableTx.DualProof.TargetTxHeader)
+		if e.alt != nil && e.alt.vent != nil {
+			e.altHit = e.alt.vent(r, ve)
+		}
+		return ve, nil
 	}
 	mock.VerifiableSetF = func(ctx context.Context, in *schema.VerifiableSetRequest, opts ...grpc.CallOption) (*schema.VerifiableTx, error) {
-		return db.VerifiableSet(ctx, in)
+		t, err := e.route.db.VerifiableSet(ctx, in)
+		return finishVtx(t, err, true)
+	}
+	mock.VerifiableSetReferenceF = func(ctx context.Context, in *schema.VerifiableReferenceRequest, opts ...grpc.CallOption) (*schema.VerifiableTx, error) {
+		t, err := e.route.db.VerifiableSetReference(ctx, in)
+		return finishVtx(t, err, true)
+	}
+	mock.VerifiableZAddF = func(ctx context.Context, in *schema.VerifiableZAddRequest, opts ...grpc.CallOption) (*schema.VerifiableTx, error) {
+		t, err := e.route.db.VerifiableZAdd(ctx, in)
+		return finishVtx(t, err, true)
 	}
 	mock.VerifiableTxByIdF = func(ctx context.Context, in *schema.VerifiableTxRequest, opts ...grpc.CallOption) (*schema.VerifiableTx, error) {
-		t, err := db.VerifiableTxByID(ctx, in)
-		if err == nil && tam != nil && tam.tx != nil && in.EntriesSpec == nil {
-			t = proto.Clone(t).(*schema.VerifiableTx)
-			tam.tx(r, t)
-		}
-		return t, err
+		t, err := e.route.db.VerifiableTxByID(ctx, in)
+		return finishVtx(t, err, in.EntriesSpec == nil)
 	}
-	ms := &memState{st: map[string]*schema.ImmutableState{}}
-	cl := client.NewClient().WithLogger(quiet).WithClientConn(&grpc.ClientConn{}).WithServiceClient(mock).WithStateService(ms)
+	e.cl = client.NewClient().WithLogger(quiet).WithClientConn(&grpc.ClientConn{}).WithServiceClient(mock).
+		WithStateService(e.ms).WithServerSigningPubKey(&pk.PublicKey)
 
-	// the oracle: is (id, hash) a state of the database?
-	stateOK := func(what string) {
-		s := ms.st["defaultdb"]
-		if s == nil || s.TxId == 0 {
-			return
-		}
-		h, err := db.TxByID(ctx, &schema.TxRequest{Tx: s.TxId})
+	// ---------- read operations: for a proven transaction v, the operations that prove it
+	readOps := func(v uint64) []cfOp {
+		var ops []cfOp
+		gen, err := e.A.db.TxByID(ctx, &schema.TxRequest{Tx: v})
 		if err != nil {
-			r.Finding(fmt.Sprintf("client flow: after %s the trusted state names transaction %d which the database does not have: %v", what, s.TxId, err))
+			return nil
+		}
+		ops = append(ops, cfOp{name: "VerifiedTxByID", proven: v,
+			run: func() (any, error) { return e.cl.VerifiedTxByID(ctx, v) },
+			genuine: func(ret any) bool {
+				got := ret.(*schema.Tx)
+				if !proto.Equal(got.Header, gen.Header) || len(got.Entries) != len(gen.Entries) {
+					return false
+				}
+				for i := range got.Entries {
+					a, b := got.Entries[i], gen.Entries[i]
+					if !bytes.Equal(a.Key, b.Key[1:]) || !bytes.Equal(a.HValue, b.HValue) || (a.Metadata != nil) != (b.Metadata != nil) {
+						return false
+					}
+				}
+				return true
+			}})
+		// a key written by transaction v (plain keys only), read AT v
+		for _, te := range gen.Entries {
+			k := te.Key
+			if len(k) < 2 || k[0] != 0 || string(k[1:]) == "ref" {
+				continue
+			}
+			key := append([]byte{}, k[1:]...)
+			want, err := e.A.db.Get(ctx, &schema.KeyRequest{Key: key, AtTx: v})
+			if err != nil {
+				continue
+			}
+			genuineEntry := func(ret any) bool {
+				got := ret.(*schema.Entry)
+				return bytes.Equal(got.Value, want.Value) && got.Tx == want.Tx && bytes.Equal(got.Key, want.Key) &&
+					(got.Metadata != nil && got.Metadata.Deleted) == (want.Metadata != nil && want.Metadata.Deleted)
+			}
+			ops = append(ops, cfOp{name: "VerifiedGetAt", proven: v,
+				run: func() (any, error) { return e.cl.VerifiedGetAt(ctx, key, v) }, genuine: genuineEntry})
+			if latest, err := e.A.db.Get(ctx, &schema.KeyRequest{Key: key}); err == nil && latest.Tx == v {
+				ops = append(ops, cfOp{name: "VerifiedGet", proven: v,
+					run: func() (any, error) { return e.cl.VerifiedGet(ctx, key) }, genuine: genuineEntry})
+			}
+			break
+		}
+		return ops
+	}
+	// the reference written at transaction 4 (resolved read: ReferencedBy branch of verifiedGet)
+	refOp := func() *cfOp {
+		want, err := e.A.db.Get(ctx, &schema.KeyRequest{Key: []byte("ref")})
+		if err != nil || want.ReferencedBy == nil {
+			return nil
+		}
+		return &cfOp{name: "VerifiedGet(reference)", proven: want.ReferencedBy.Tx,
+			run: func() (any, error) { return e.cl.VerifiedGet(ctx, []byte("ref")) },
+			genuine: func(ret any) bool {
+				got := ret.(*schema.Entry)
+				return bytes.Equal(got.Value, want.Value) && got.ReferencedBy != nil && got.ReferencedBy.Tx == want.ReferencedBy.Tx && got.Tx == want.Tx
+			}}
+	}
+
+	// states relative to the proven transaction: trusted state newer / equal / older
+	statesFor := func(v uint64) map[string]uint64 {
+		m := map[string]uint64{"proven=trusted": v}
+		if v < e.last() {
+			m["proven-older-than-trusted"] = v + 1 + uint64(r.Rng.Intn(int(e.last()-v)))
+		}
+		if v > 1 {
+			m["proven-newer-than-trusted"] = 1 + uint64(r.Rng.Intn(int(v-1)))
+		}
+		return m
+	}
+	dirs := []string{"proven-older-than-trusted", "proven=trusted", "proven-newer-than-trusted"}
+
+	honest := func(op cfOp, dir string, s uint64) bool {
+		e.setState(s)
+		e.route, e.alt = e.A, nil
+		ret, err := op.run()
+		r.Stats["clientflow/honest/"+op.name+"/"+dir]++
+		if err != nil {
+			r.Finding(fmt.Sprintf("completeness: pkg/client.%s failed against the honest database (%s: proven tx %d, trusted state %d): %v seed=%d", op.name, dir, op.proven, s, err, r.Seed))
+			return false
+		}
+		if !op.genuine(ret) {
+			r.Finding(fmt.Sprintf("client flow: honest %s returned something else than the database holds (%s) seed=%d", op.name, dir, r.Seed))
+		}
+		if !e.isStateOfA(e.ms.st) {
+			r.Finding(fmt.Sprintf("client flow: after an honest %s (%s) the locally stored state (%d, %x) is not a state of the database seed=%d", op.name, dir, e.ms.st.TxId, e.ms.st.TxHash, r.Seed))
+		}
+		return true
+	}
+	// must fail, state untouched
+	mustReject := func(op cfOp, dir string, s uint64, who string, bucket string) {
+		before := e.setState(s)
+		ret, err := op.run()
+		r.Stats[bucket]++
+		if err == nil {
+			gen := op.genuine(ret)
+			r.Finding(fmt.Sprintf("pkg/client.%s accepted a response that is not the honest one for the trusted history: %s; %s (proven tx %d, trusted state %d); returned data genuine: %v; locally stored state afterwards (%d, %x) is a state of the trusted database: %v",
+				op.name, who, dir, op.proven, s, gen, e.ms.st.TxId, e.ms.st.TxHash[:4], e.isStateOfA(e.ms.st)))
 			return
 		}
-		a := schema.TxHeaderFromProto(h.Header).Alh()
-		if !bytes.Equal(a[:], s.TxHash) {
-			r.Finding(fmt.Sprintf("client flow: after %s the client's trusted state (%d, %x) is not a state of the database", what, s.TxId, s.TxHash))
+		if !sameState(before, e.ms.st) {
+			r.Finding(fmt.Sprintf("pkg/client.%s returned an error but CHANGED the locally stored state from (%d, %x) to (%d, %x): %s; %s",
+				op.name, before.TxId, before.TxHash[:4], e.ms.st.TxId, e.ms.st.TxHash[:4], who, dir))
+		}
+	}
+	// may be accepted when the altered field is not used, but then everything must be genuine
+	mustBeHarmless := func(op cfOp, dir string, s uint64, who string, bucket string) {
+		before := e.setState(s)
+		ret, err := op.run()
+		r.Stats[bucket]++
+		if err != nil {
+			if !sameState(before, e.ms.st) {
+				r.Finding(fmt.Sprintf("pkg/client.%s returned an error but CHANGED the locally stored state: %s; %s", op.name, who, dir))
+			}
+			return
+		}
+		if !op.genuine(ret) || !e.isStateOfA(e.ms.st) || e.ms.st.TxId < s {
+			r.Finding(fmt.Sprintf("pkg/client.%s accepted an altered response and returned data / stored a state that is not the trusted database's: %s; %s (proven tx %d, trusted state %d)",
+				op.name, who, dir, op.proven, s))
 		}
 	}
 
-	// ---- honest history through the verified API
-	type kv struct{ k, v []byte }
-	var hist []kv
-	n := 8 + r.Rng.Intn(8)
-	for i := 0; i < n; i++ {
-		k := append([]byte("k"), byte('a'+r.Rng.Intn(6)))
-		v := vk.RandBytes(r.Rng, 1+r.Rng.Intn(12))
-		if r.Rng.Intn(3) == 0 {
-			if _, err := db.Set(ctx, &schema.SetRequest{KVs: []*schema.KeyValue{{Key: k, Value: v}, {Key: append([]byte("x"), k...), Value: v}}}); err != nil {
+	vAlts, eAlts := vtxAlters(), ventAlters()
+	runReadOp := func(op cfOp) {
+		sts := statesFor(op.proven)
+		for _, dir := range dirs {
+			s, ok := sts[dir]
+			if !ok {
+				continue
+			}
+			if !honest(op, dir, s) {
+				continue
+			}
+			for _, f := range e.forks {
+				e.route, e.alt = f, nil
+				mustReject(op, dir, s, "answered from "+f.name, "clientflow/forked/"+op.name+"/"+dir)
+			}
+			alts := vAlts
+			if op.name != "VerifiedTxByID" {
+				alts = eAlts
+			}
+			for i := range alts {
+				a := alts[i]
+				e.route, e.alt, e.altHit = e.A, &a, false
+				if a.strict {
+					// apply first to know whether the alteration is applicable: run once
+					before := e.setState(s)
+					ret, err := op.run()
+					if !e.altHit {
+						continue
+					}
+					r.Stats["clientflow/altered/"+op.name+"/"+dir]++
+					if err == nil {
+						r.Finding(fmt.Sprintf("pkg/client.%s accepted a response that is not the honest one for the trusted history: altered %s; %s (proven tx %d, trusted state %d); returned data genuine: %v; %s",
+							op.name, a.name, dir, op.proven, s, op.genuine(ret), classOf(op.name, a.name)))
+					} else if !sameState(before, e.ms.st) {
+						r.Finding(fmt.Sprintf("pkg/client.%s returned an error but CHANGED the locally stored state: altered %s; %s", op.name, a.name, dir))
+					}
+				} else {
+					mustBeHarmless(op, dir, s, "altered "+a.name, "clientflow/altered/"+op.name+"/"+dir)
+				}
+			}
+			e.alt = nil
+		}
+	}
+
+	for q := 0; q < 3; q++ {
+		v := 2 + uint64(r.Rng.Intn(int(e.last())-2))
+		for _, op := range readOps(v) {
+			runReadOp(op)
+		}
+	}
+	if op := refOp(); op != nil {
+		runReadOp(*op)
+	}
+
+	// ---------- write operations: the proven transaction is new, the trusted state is the last
+	// one or an older one
+	type wop struct {
+		name string
+		run  func(tag byte) (any, error)
+	}
+	wops := []wop{
+		{"VerifiedSet", func(tag byte) (any, error) { return e.cl.VerifiedSet(ctx, []byte("kw"), []byte{tag, 9}) }},
+		{"VerifiedSetReference", func(tag byte) (any, error) {
+			return e.cl.VerifiedSetReference(ctx, []byte{'r', 'f', tag}, e.keys[0])
+		}},
+		{"VerifiedZAdd", func(tag byte) (any, error) { return e.cl.VerifiedZAdd(ctx, []byte("zw"), float64(tag), e.keys[1]) }},
+	}
+	tag := byte(0)
+	for _, w := range wops {
+		w := w
+		for _, dir := range []string{"trusted=last", "trusted-older"} {
+			if err := e.refreshA(); err != nil {
 				return err
 			}
-		} else {
-			if _, err := cl.VerifiedSet(ctx, k, v); err != nil {
-				r.Finding(fmt.Sprintf("completeness: pkg/client.VerifiedSet failed against an honest database at step %d: %v seed=%d", i, err, r.Seed))
-				return nil
+			pick := func() uint64 {
+				if dir == "trusted=last" {
+					return e.last()
+				}
+				return 1 + uint64(r.Rng.Intn(int(e.last())-1))
 			}
-			stateOK("VerifiedSet")
-		}
-		hist = append(hist, kv{k, v})
-		r.Stats["clientflow/honest/set"]++
-		if r.Rng.Intn(2) == 0 {
-			q := hist[r.Rng.Intn(len(hist))]
-			e, err := cl.VerifiedGet(ctx, q.k)
+			mk := func() cfOp {
+				tag++
+				t := tag
+				return cfOp{name: w.name, run: func() (any, error) { return w.run(t) },
+					genuine: func(ret any) bool {
+						h := ret.(*schema.TxHeader)
+						e.refreshA()
+						if h.Id < 1 || h.Id != e.last() {
+							return false
+						}
+						a := schema.TxHeaderFromProto(h).Alh()
+						return bytes.Equal(a[:], e.alhs[h.Id-1])
+					}}
+			}
+			// honest
+			op := mk()
+			s := pick()
+			e.setState(s)
+			e.route, e.alt = e.A, nil
+			ret, err := op.run()
+			r.Stats["clientflow/honest/"+w.name+"/"+dir]++
 			if err != nil {
-				r.Finding(fmt.Sprintf("completeness: pkg/client.VerifiedGet failed against an honest database at step %d: %v seed=%d", i, err, r.Seed))
-				return nil
+				r.Finding(fmt.Sprintf("completeness: pkg/client.%s failed against the honest database (%s, trusted state %d): %v seed=%d", w.name, dir, s, err, r.Seed))
+				continue
 			}
-			g, _ := db.Get(ctx, &schema.KeyRequest{Key: q.k})
-			if g == nil || !bytes.Equal(e.Value, g.Value) || e.Tx != g.Tx {
-				r.Finding(fmt.Sprintf("client flow: honest VerifiedGet returned something else than the database holds seed=%d", r.Seed))
+			if !op.genuine(ret) || !e.isStateOfA(e.ms.st) || e.ms.st.TxId != e.last() {
+				r.Finding(fmt.Sprintf("client flow: after an honest %s (%s) the returned header / locally stored state is not the database's last transaction seed=%d", w.name, dir, r.Seed))
 			}
-			stateOK("VerifiedGet")
-			r.Stats["clientflow/honest/get"]++
-		}
-		if r.Rng.Intn(2) == 0 {
-			last, _ := db.CurrentState()
-			id := uint64(1 + r.Rng.Intn(int(last.TxId)))
-			if _, err := cl.VerifiedTxByID(ctx, id); err != nil {
-				r.Finding(fmt.Sprintf("completeness: pkg/client.VerifiedTxByID(%d) failed against an honest database at step %d: %v seed=%d", id, i, err, r.Seed))
-				return nil
+			// answered by a fork (which executes the write on its own history)
+			for _, f := range e.forks {
+				op := mk()
+				e.route, e.alt = f, nil
+				s := pick()
+				mustReject(op, dir, s, "answered from "+f.name, "clientflow/forked/"+w.name+"/"+dir)
 			}
-			stateOK("VerifiedTxByID")
-			r.Stats["clientflow/honest/txbyid"]++
+			// altered honest responses (A executes each write)
+			for i := range vAlts {
+				a := vAlts[i]
+				if err := e.refreshA(); err != nil {
+					return err
+				}
+				op := mk()
+				s := pick()
+				e.route, e.alt, e.altHit = e.A, &a, false
+				if a.strict {
+					before := e.setState(s)
+					ret, err := op.run()
+					if !e.altHit {
+						continue
+					}
+					r.Stats["clientflow/altered/"+w.name+"/"+dir]++
+					if err == nil {
+						r.Finding(fmt.Sprintf("pkg/client.%s accepted a response that is not the honest one for the trusted history: altered %s; %s (trusted state %d); returned data genuine: %v; %s",
+							w.name, a.name, dir, s, op.genuine(ret), classOf(w.name, a.name)))
+					} else if !sameState(before, e.ms.st) {
+						r.Finding(fmt.Sprintf("pkg/client.%s returned an error but CHANGED the locally stored state: altered %s; %s", w.name, a.name, dir))
+					}
+				} else {
+					mustBeHarmless(op, dir, s, "altered "+a.name, "clientflow/altered/"+w.name+"/"+dir)
+				}
+			}
+			e.alt = nil
 		}
 	}
-	last, _ := db.CurrentState()
 
-	// ---- responses recorded as correspondence cases (through the protobuf conversions)
+	// ---------- responses recorded as correspondence cases (through the protobuf conversions)
+	if err := e.refreshA(); err != nil {
+		return err
+	}
 	for q := 0; q < 6; q++ {
-		i := uint64(1 + r.Rng.Intn(int(last.TxId)))
-		j := uint64(1 + r.Rng.Intn(int(last.TxId)))
-		vt, err := db.VerifiableTxByID(ctx, &schema.VerifiableTxRequest{Tx: i, ProveSinceTx: j})
+		i := uint64(1 + r.Rng.Intn(int(e.last())))
+		j := uint64(1 + r.Rng.Intn(int(e.last())))
+		vt, err := e.A.db.VerifiableTxByID(ctx, &schema.VerifiableTxRequest{Tx: i, ProveSinceTx: j})
 		if err != nil {
 			return err
 		}
@@ -178,112 +720,6 @@ func clientFlow(r *vk.Run) (err error) {
 		_, acc := caseDual(r, p, s, t, p.SourceTxHeader.Alh(), p.TargetTxHeader.Alh(), "database/VerifiableTxByID")
 		if !acc {
 			r.Finding(fmt.Sprintf("completeness: store.VerifyDualProof rejected the proof of pkg/database.VerifiableTxByID(tx=%d, since=%d) seed=%d", i, j, r.Seed))
-		}
-	}
-
-	// ---- tampered responses: a Verified* call that returns without error must return what the
-	// database holds
-	getTampers := []tamper{
-		{name: "get.Entry.Value", get: func(r *vk.Run, e *schema.VerifiableEntry) { e.Entry.Value = flipBytes(r, e.Entry.Value) }},
-		{name: "get.Entry.Tx+1", get: func(r *vk.Run, e *schema.VerifiableEntry) { e.Entry.Tx++ }},
-		{name: "get.Entry.Tx-1", get: func(r *vk.Run, e *schema.VerifiableEntry) { e.Entry.Tx-- }},
-		{name: "get.Entry.Metadata.deleted", get: func(r *vk.Run, e *schema.VerifiableEntry) {
-			e.Entry.Metadata = &schema.KVMetadata{Deleted: true}
-		}},
-		{name: "get.Entry.Metadata.nonindexable", get: func(r *vk.Run, e *schema.VerifiableEntry) {
-			e.Entry.Metadata = &schema.KVMetadata{NonIndexable: true}
-		}},
-		{name: "get.InclusionProof.Leaf+1", get: func(r *vk.Run, e *schema.VerifiableEntry) { e.InclusionProof.Leaf++ }},
-		{name: "get.DualProof.SourceTxHeader.EH", get: func(r *vk.Run, e *schema.VerifiableEntry) {
-			e.VerifiableTx.DualProof.SourceTxHeader.EH = flipBytes(r, e.VerifiableTx.DualProof.SourceTxHeader.EH)
-		}},
-		{name: "get.DualProof.TargetTxHeader.EH", get: func(r *vk.Run, e *schema.VerifiableEntry) {
-			e.VerifiableTx.DualProof.TargetTxHeader.EH = flipBytes(r, e.VerifiableTx.DualProof.TargetTxHeader.EH)
-		}},
-		{name: "get.DualProof.TargetTxHeader.Ts", get: func(r *vk.Run, e *schema.VerifiableEntry) { e.VerifiableTx.DualProof.TargetTxHeader.Ts++ }},
-		{name: "get.DualProof.SourceTxHeader.PrevAlh", get: func(r *vk.Run, e *schema.VerifiableEntry) {
-			e.VerifiableTx.DualProof.SourceTxHeader.PrevAlh = flipBytes(r, e.VerifiableTx.DualProof.SourceTxHeader.PrevAlh)
-		}},
-	}
-	for _, tm := range getTampers {
-		for rep := 0; rep < 2; rep++ {
-			tm := tm
-			q := hist[r.Rng.Intn(len(hist))]
-			g, _ := db.Get(ctx, &schema.KeyRequest{Key: q.k})
-			// the trusted state is moved around so that the proven transaction is sometimes the source
-			// (older than the state), sometimes the target
-			if rep == 1 && g != nil && g.Tx > 1 {
-				if _, err := cl.VerifiedTxByID(ctx, uint64(1+r.Rng.Intn(int(g.Tx)))); err != nil {
-					continue
-				}
-				// a verified read of an older transaction keeps the newer state: force an older state
-				h, _ := db.TxByID(ctx, &schema.TxRequest{Tx: uint64(1 + r.Rng.Intn(int(g.Tx)))})
-				a := schema.TxHeaderFromProto(h.Header).Alh()
-				ms.st["defaultdb"] = &schema.ImmutableState{Db: "defaultdb", TxId: h.Header.Id, TxHash: a[:]}
-			}
-			tam = &tm
-			e, err := cl.VerifiedGet(ctx, q.k)
-			tam = nil
-			r.Stats["clientflow/tampered/get"]++
-			if err == nil {
-				if g == nil || !bytes.Equal(e.Value, g.Value) || e.Tx != g.Tx ||
-					(e.Metadata != nil && (e.Metadata.Deleted || e.Metadata.NonIndexable)) != (g.Metadata != nil && (g.Metadata.Deleted || g.Metadata.NonIndexable)) {
-					r.Finding(fmt.Sprintf("pkg/client.VerifiedGet returned, without error, an entry that is not what the database holds; tampering=%s seed=%d", tm.name, r.Seed))
-				}
-			}
-			stateOK("tampered VerifiedGet " + tm.name)
-		}
-	}
-	txTampers := []tamper{
-		{name: "tx.Tx.Entries[0].HValue", tx: func(r *vk.Run, t *schema.VerifiableTx) { t.Tx.Entries[0].HValue = flipBytes(r, t.Tx.Entries[0].HValue) }},
-		{name: "tx.Tx.Entries[0].Key", tx: func(r *vk.Run, t *schema.VerifiableTx) { t.Tx.Entries[0].Key = flipBytes(r, t.Tx.Entries[0].Key) }},
-		{name: "tx.Tx.Entries[0].Value", tx: func(r *vk.Run, t *schema.VerifiableTx) { t.Tx.Entries[0].Value = flipBytes(r, t.Tx.Entries[0].Value) }},
-		{name: "tx.Tx.Entries.drop", tx: func(r *vk.Run, t *schema.VerifiableTx) { t.Tx.Entries = t.Tx.Entries[:len(t.Tx.Entries)-1] }},
-		{name: "tx.Tx.Header.EH", tx: func(r *vk.Run, t *schema.VerifiableTx) { t.Tx.Header.EH = flipBytes(r, t.Tx.Header.EH) }},
-		{name: "tx.Tx.Header.Ts", tx: func(r *vk.Run, t *schema.VerifiableTx) { t.Tx.Header.Ts++ }},
-		{name: "tx.DualProof.SourceTxHeader.EH", tx: func(r *vk.Run, t *schema.VerifiableTx) {
-			t.DualProof.SourceTxHeader.EH = flipBytes(r, t.DualProof.SourceTxHeader.EH)
-		}},
-		{name: "tx.DualProof.TargetTxHeader.EH", tx: func(r *vk.Run, t *schema.VerifiableTx) {
-			t.DualProof.TargetTxHeader.EH = flipBytes(r, t.DualProof.TargetTxHeader.EH)
-		}},
-	}
-	for _, tm := range txTampers {
-		for rep := 0; rep < 2; rep++ {
-			tm := tm
-			id := uint64(1 + r.Rng.Intn(int(last.TxId)))
-			if rep == 1 { // trusted state older than (or equal to) the requested transaction
-				h, _ := db.TxByID(ctx, &schema.TxRequest{Tx: uint64(1 + r.Rng.Intn(int(id)))})
-				a := schema.TxHeaderFromProto(h.Header).Alh()
-				ms.st["defaultdb"] = &schema.ImmutableState{Db: "defaultdb", TxId: h.Header.Id, TxHash: a[:]}
-			}
-			genuine, err := db.TxByID(ctx, &schema.TxRequest{Tx: id})
-			if err != nil {
-				return err
-			}
-			tam = &tm
-			got, err := cl.VerifiedTxByID(ctx, id)
-			tam = nil
-			r.Stats["clientflow/tampered/txbyid"]++
-			if err == nil {
-				// the client strips the 1-byte key prefix of the returned entries
-				for _, e := range genuine.Entries {
-					e.Key = e.Key[1:]
-				}
-				same := proto.Equal(got.Header, genuine.Header) && len(got.Entries) == len(genuine.Entries)
-				if same {
-					for i := range got.Entries {
-						a, b := got.Entries[i], genuine.Entries[i]
-						if !bytes.Equal(a.Key, b.Key) || !bytes.Equal(a.HValue, b.HValue) || !bytes.Equal(a.Value, b.Value) {
-							same = false
-						}
-					}
-				}
-				if !same {
-					r.Finding(fmt.Sprintf("pkg/client.VerifiedTxByID returned, without error, a transaction that is not the database's transaction %d: the response's Tx (header and entries) is never related to the proven header; tampering=%s", id, tm.name))
-				}
-			}
-			stateOK("tampered VerifiedTxByID " + tm.name)
 		}
 	}
 	return nil
